@@ -1,9 +1,12 @@
 package keeper
 
 import (
+	"fmt"
+
 	sdkmath "cosmossdk.io/math"
 
 	"github.com/functionx/fx-core/v8/x/crosschain/types"
+	"github.com/functionx/fx-core/v8/zzverif/models"
 	"github.com/functionx/fx-core/v8/zzverif/rt"
 )
 
@@ -63,6 +66,59 @@ func VerifC17SupportChains() {
 		if len(got) == len(first) {
 			for i := range got {
 				rt.Assert(got[i] == first[i], "chains listed in identical order under every map order")
+			}
+		}
+	}
+	rt.SetMapOrder(false)
+}
+
+// VerifC17ProposalOracles: a governance update of the oracle list that drops several bonded
+// oracles undelegates their stakes one after the other; the order of those staking messages (it
+// fixes unbonding ids and the event sequence, hence the application hash) must not depend on map
+// iteration order. The update is run on two branches of the same state under both map orders.
+func VerifC17ProposalOracles() {
+	e := verifNewEnv(100)
+	_, st := e.attachBankAndStaking()
+	view := &models.StakingView{}
+	e.k.stakingKeeper = view
+	e.setParams(verifParamSets[0], 20000)
+	n := rt.Bound("oracles", 4, 5)
+	var old, all []string
+	for i := 0; i < n; i++ {
+		// oracle 0 is online and stays; the others are online or not, in the old list or not
+		online := true
+		if i > 0 {
+			online = rt.Bool(fmt.Sprintf("oracle%d.online", i))
+		}
+		o := e.verifAddOracle(i, online, 5, verifStake(0), 0)
+		all = append(all, o.OracleAddress)
+		if i == 0 || rt.Bool(fmt.Sprintf("oracle%d.inOldList", i)) {
+			old = append(old, o.OracleAddress)
+		}
+		view.Delegated = append(view.Delegated, models.DelegationRec{Delegator: o.GetDelegateAddress(verifModule).String(), Amount: sdkmath.NewInt(1000)})
+	}
+	e.k.SetProposalOracle(e.ctx, &types.ProposalOracle{Oracles: old})
+	keep := 1 + rt.Choose("kept", 2)
+	var first []models.DelegationRec
+	var firstErr error
+	for run := 0; run < rt.Repeats(); run++ {
+		rt.SetMapOrder(run%2 == 1)
+		st.Recs = nil
+		cctx, _ := e.ctx.CacheContext()
+		err := e.k.UpdateProposalOracles(cctx, all[:keep])
+		if run == 0 {
+			first, firstErr = st.Recs, err
+			rt.Cover("computed")
+			if err == nil && len(first) >= 2 {
+				rt.Cover("several-dropped")
+			}
+			continue
+		}
+		rt.Assert((err == nil) == (firstErr == nil), "same verdict under every map order")
+		rt.Assert(len(st.Recs) == len(first), "same number of staking messages under every map order")
+		if len(st.Recs) == len(first) {
+			for i := range first {
+				rt.Assert(st.Recs[i].Delegator == first[i].Delegator, "staking messages issued in identical order under every map order")
 			}
 		}
 	}
